@@ -183,7 +183,11 @@ def lint_case(case: dict) -> dict:
                                               "SPDX-FileCopyrightText": "2020 Glob Owner",
                                               "SPDX-License-Identifier": "MIT"}]}
         (base / "REUSE.toml").write_text(tomlkit.dumps(doc))
-        r = core.run_reuse(["--root", str(d), "--no-multiprocessing", "lint", "--json"])
+        # the root is spelled absolutely, or as "." from inside it (the path relative to the REUSE.toml must not depend on it)
+        if case.get("relroot"):
+            r = core.run_reuse(["--root", ".", "--no-multiprocessing", "lint", "--json"], cwd=d)
+        else:
+            r = core.run_reuse(["--root", str(d), "--no-multiprocessing", "lint", "--json"])
         if r["exc"] or r["exit"] not in (0, 1):
             return {"tid": case["id"], "globs": case["globs"], "paths": [[]], "obs": [False], "via": "lint-crash",
                     "impl": [], "crash": (r["exc"] or r["err"])[-400:]}
@@ -308,7 +312,7 @@ def run(ctx: core.Ctx) -> int:
                           "full_len": 2 if (q or len(c["globs"]) > 1 or len(c["globs"][0]) > 5) else 3})
     events = ctx.pmap(api_case, api_cases)
     lint_n = 160 if q else 2500
-    lint_cases = [{**c, "nested": bool(i % 2)} for i, c in enumerate(rnd.sample(cases, min(lint_n, len(cases))))]
+    lint_cases = [{**c, "nested": bool(i % 2), "relroot": i % 4 >= 2} for i, c in enumerate(rnd.sample(cases, min(lint_n, len(cases))))]
     lint_events = ctx.pmap(lint_case, lint_cases, chunksize=4)
     for e in lint_events:
         e["tid"] = e["tid"] + 10_000_000
